@@ -10,6 +10,16 @@ std::vector<u32> g_default_report_cps;
 static bool is_content_kind(const std::string &k) { return k == "BITROT" || k == "TRUNCATE" || k == "TORN" || k == "SETBYTES" || k == "CODEROT" || k == "LOOPROT" || k == "REFETCH_DIFFERS"; }
 static bool is_file_fn(const std::string &t) { return t == "fopen" || t == "fseek" || t == "ftell" || t == "fread"; }
 
+// a hinted font whose advance callback is a pure function of the glyph id (no state: the library may call it in any order)
+static float hinted_advance(const void *h, gr_uint16 gid) { const float ppm = *static_cast<const float *>(h); return float((gid * 37u) % 997u) * ppm / 640.0f + ppm / 8.0f; }
+static float g_hint_ppm[64]; static unsigned g_hint_next = 0;
+gr_font *make_font_maybe_hinted(float ppm, const gr_face *face, bool hinted) {
+    if (!hinted) return gr_make_font(ppm, face);
+    float *slot = &g_hint_ppm[g_hint_next++ % 64]; *slot = ppm;      // the handle must outlive the font: a small ring of slots does
+    gr_font_ops ops = {sizeof(gr_font_ops), hinted_advance, 0};
+    return gr_make_font_with_ops(ppm, slot, &ops, face);
+}
+
 void quiescence_check(const std::string &prop) {
     if (alloc_live()) violation(prop + ":leak-at-quiescence", strf("%zu library allocation(s) still live after everything was destroyed: %s", alloc_live(), alloc_describe().c_str()));
 }
@@ -173,7 +183,7 @@ OpResult World::op_make_seg(const Op &op, bool is_probe, bool shared_font) {
     if (is_probe) {
         float ppm = float(op.arg(1)) / 16.0f;
         if (shared_font) { int fo = pick_font(op.arg(1), fi); if (fo >= 0) font = fonts[size_t(fo)].font; }
-        else if (op.arg(1) > 0) { API("gr_make_font", BUDGET_SMALL); tmpfont = gr_make_font(ppm, f.face); font = tmpfont; }
+        else if (op.arg(1) > 0) { bool hinted = (op.arg(1) & (1 << 20)) != 0; ppm = float(op.arg(1) & 0xFFFFF) / 16.0f; API("gr_make_font", BUDGET_SMALL); tmpfont = make_font_maybe_hinted(ppm, f.face, hinted); font = tmpfont; }
         if (op.a.size() > 5) {
             API("featureval", BUDGET_SMALL);
             tmpfv = gr_face_featureval_for_lang(f.face, u32(op.arg(5)));
@@ -300,6 +310,10 @@ OpResult World::op_justify(const Op &op) {
     r.kind = "int"; r.v.push_back(fbits(res));
     if (!std::isfinite(res)) violation("C19:width-non-finite", strf("gr_seg_justify returned %g (width=%g flags=%d)", res, width, flags));
     check_lines(s, "gr_seg_justify");
+    if (!s.broken && s.line_starts.size() == 1) {   // every accessor again: justify leaves per-slot justification records behind
+        SegView v; v.seg = s.seg; v.n_slots = unsigned(s.order.size()); v.slots = s.order; v.chain_ok = true;
+        seg_exercise(s.seg, v, f.face, font);
+    }
     after_call_preload_check(f, "gr_seg_justify");
     return r;
 }
@@ -414,13 +428,14 @@ OpResult World::exec(const Op &op) {
     if (k == "make_font") {
         int fi = pick_face(op.arg(0)); if (fi < 0) return r;
         FontObj o; o.face = fi; o.ppm = float(op.arg(1)) / 16.0f;
-        { API("gr_make_font", BUDGET_SMALL); o.font = gr_make_font(o.ppm, faces[size_t(fi)].face); }
+        { API("gr_make_font", BUDGET_SMALL); o.font = make_font_maybe_hinted(o.ppm, faces[size_t(fi)].face, op.arg(2) != 0); }
         r.kind = "int"; r.v.push_back(o.font ? 1 : 0);
+        o.pinned = op.s == "probe-font";
         if (o.font) { o.alive = true; fonts.push_back(o); }
         return r;
     }
     if (k == "destroy_seg") { int si = pick_seg(op.arg(0)); if (si < 0) { std::vector<int> live; for (size_t i = 0; i < segs.size(); ++i) if (segs[i].alive) live.push_back(int(i)); if (live.empty()) return r; si = live[size_t(u64(op.arg(0)) % live.size())]; } destroy_seg(si); r.kind = "int"; return r; }
-    if (k == "destroy_font") { int fo = -1; std::vector<int> live; for (size_t i = 0; i < fonts.size(); ++i) if (fonts[i].alive) live.push_back(int(i)); if (live.empty()) return r; fo = live[size_t(u64(op.arg(0)) % live.size())]; destroy_font(fo); r.kind = "int"; return r; }
+    if (k == "destroy_font") { int fo = -1; std::vector<int> live; for (size_t i = 0; i < fonts.size(); ++i) if (fonts[i].alive && !fonts[i].pinned) live.push_back(int(i)); if (live.empty()) return r; fo = live[size_t(u64(op.arg(0)) % live.size())]; destroy_font(fo); r.kind = "int"; return r; }
     if (k == "destroy_face") { int fi = pick_face(op.arg(0)); if (fi < 0) return r; destroy_face(fi); r.kind = "int"; return r; }
     return r;
 }
